@@ -609,7 +609,7 @@ func TestProp(t *testing.T) {
 	r.Regress()
 	r.Assume("tokens are built with ref/der (RFC 4178 / RFC 2743 framing) around AP-REQs minted as in C01; completeness (a valid AP-REQ must be served) is asserted only for the standard framings: KRB5 or MS-KRB5 first in mechTypes, NegTokenResp with a KRB5/MS-KRB5 supportedMech, raw KRB5 mech token")
 	r.Rule("request: single requests: Authorization in {absent, Basic, bare Negotiate, non-base64, random bytes, token}; token = framing (14 kinds incl. empty/foreign mech lists, bare NegTokenInit, NegTokenResp, raw mech token) x inner {AP-REQ valid or with 0-2 catalogue defects, AP-REP, KRB-ERROR, unknown TOK_ID, garbage} x optional truncation / single-byte substitution; non-trivial = a syntactically framed token reaches verification")
-	r.Rapid("request", r.N(5000, 40000), func(t *rapid.T) {
+	r.Rapid("request", r.N(5000, 200000), func(t *rapid.T) {
 		c := Case{SessionMgr: rapid.SampledFrom([]string{"none", "none", "memory", "failnew", "failget"}).Draw(t, "sm")}
 		c.Reqs = []Req{drawReq(t, rapid.Uint64().Draw(t, "seed"), rapid.SampledFrom(ref.ETypes).Draw(t, "etype"), false)}
 		count(r, c, "request")
@@ -623,7 +623,7 @@ func TestProp(t *testing.T) {
 		}
 	})
 	r.Rule("history: sequences of 2-6 requests against one handler with session manager in {none, in-memory, failing New, failing Get, Get returning the record together with an error}, served by one handler for the whole history or by a fresh handler per request, the token-verification API also driven through one re-used token variable: token classes, a served token sent again octet for octet (never acceptable a second time), requests carrying the last session cookie or a forged one")
-	r.Rapid("history", r.N(600, 6000), func(t *rapid.T) {
+	r.Rapid("history", r.N(600, 30000), func(t *rapid.T) {
 		c := Case{SessionMgr: rapid.SampledFrom([]string{"none", "memory", "memory", "memory", "failnew", "failget", "failget-stale"}).Draw(t, "sm"),
 			OneHandler: rapid.Bool().Draw(t, "onehandler")}
 		seed, et := rapid.Uint64().Draw(t, "seed"), rapid.SampledFrom(ref.ETypes).Draw(t, "etype")
